@@ -21,7 +21,7 @@ def c_h_factor(period, site_class="C"):
         period = [period]
     c_h_values = np.zeros(len(period))
     for i in range(len(period)):
-        tt = period[i]
+        tt = float(period[i])
         if tt < 0:
             print('Structural period is negative')
             raise ValueError
